@@ -1193,3 +1193,285 @@ impl Check for C06 {
         Box::pin(exec_c06(script))
     }
 }
+
+// ---------------------------------------------------------------------------
+// C08: a node caught up by snapshot install serves the same data as the leader
+
+pub struct C08;
+
+#[derive(Serialize, Deserialize, Clone, Debug, Default)]
+pub struct C08Cfg {
+    pub base: NCfg,
+    /// 0: the follower is started only after the leader compacted; 1: it was up, then cut off / killed before the compaction
+    pub scenario: u8,
+    /// in scenario 1: true = killed, false = isolated
+    pub kill: bool,
+    /// number of steps executed before the follower goes away (scenario 1)
+    pub before: usize,
+    pub restart_follower_at_end: bool,
+}
+
+pub async fn exec_c08(script: Value) -> ExecResult {
+    let id = "C08";
+    let seed = script["seed"].as_u64().unwrap_or(1);
+    let cfg: C08Cfg = serde_json::from_value(script["cfg"].clone()).unwrap_or_default();
+    let steps: Vec<WStep> = match serde_json::from_value(script["steps"].clone()) {
+        Ok(s) => s,
+        Err(e) => return ExecResult { violation: Some(Violation::new("harness.script", e.to_string())), info: RunInfo::default() },
+    };
+    tokio::fs::set_cfg(disk_cfg(&cfg.base));
+    tokio::fs::with_disk(|d| {
+        d.journal_on = false;
+        d.log_ops = false;
+    });
+    net_reset(seed, cfg.base.net.clone());
+    install_spin_tap();
+    let root = run_root(seed);
+    let mut digest = 0u64;
+    let mut installed = false;
+    let mut findings = vec![];
+    let r: VResult<()> = async {
+        let n1 = start_node(&root, 1, true, None, &cfg.base.node).await.map_err(|e| Violation::new("harness.start", e.to_string()))?;
+        vensure!(wait_leader(&n1, 20_000).await.is_some(), &format!("{}.setup_no_leader", id), "node 1 did not become leader");
+        advance(16_000).await;
+        let mut m = WModel::default();
+        // a background client writes (to its own key) only while the needs-snapshot loop runs
+        let n1c = n1.clone();
+        actix_rt::spawn(async move {
+            let mut bm = WModel::default();
+            bm.uniq = 5_000_000;
+            loop {
+                wait_spin().await;
+                let st = WStep::CfgSet { node: 1, t: 2, g: 1, d: 4, size: 5, same: false, typ: 0, desc: 0 };
+                let _ = do_step(&n1c, &st, &mut bm, 10_000).await;
+                tokio::task::yield_now().await;
+            }
+        });
+        if cfg.scenario == 1 {
+            start_node(&root, 2, false, Some(1), &cfg.base.node).await.map_err(|e| Violation::new("harness.start", e.to_string()))?;
+            advance(6_000).await;
+        }
+        for (i, st) in steps.iter().enumerate() {
+            if cfg.scenario == 1 && i == cfg.before.min(steps.len() - 1) {
+                if cfg.kill {
+                    kill_node(2).await;
+                } else {
+                    isolate(2, &[1, 2]);
+                }
+                sim::count(if cfg.kill { "fault.kill" } else { "fault.isolate" }, 1);
+            }
+            let out = do_step(&n1, st, &mut m, 30_000).await;
+            if let OpOutcome::Timeout = out {
+                vfail!(&format!("{}.op_hang", id), "step {} {:?} did not answer on the leader", i, st);
+            }
+        }
+        settle().await;
+        advance(1_000).await;
+        let snap_before = match n1.app.raft_store.get_current_snapshot().await { Ok(Some(s)) => s.index, _ => 0 };
+        // connect the follower
+        if cfg.scenario == 0 || cfg.kill {
+            start_node(&root, 2, false, Some(1), &cfg.base.node).await.map_err(|e| Violation::new("harness.start", e.to_string()))?;
+        } else {
+            heal_all();
+        }
+        sim::event("follower connected");
+        // a leader whose snapshot policy is not met answers a follower that needs a snapshot in a tight loop
+        // (no simulated time passes); writes arriving meanwhile let it compact. A client keeps writing.
+        let n1b = n1.clone();
+        let thr = cfg.base.node.snapshot_log_size;
+        let mut extra = std::mem::take(&mut m);
+        extra.uniq += 1_000_000;
+        let writer = actix_rt::spawn(async move {
+            let mut mm = extra;
+            // keep writing until the follower has (nearly) the leader's log, at most 40 x threshold writes
+            for j in 0..(thr * 40 + 40) {
+                let st = WStep::CfgSet { node: 1, t: 2, g: 1, d: 3, size: 10, same: false, typ: 0, desc: 0 };
+                let _ = do_step(&n1b, &st, &mut mm, 10_000).await;
+                // one write every 100 simulated ms - or at once while the leader is in the needs-snapshot loop
+                sleep_or_spin(100).await;
+                if j >= 3 {
+                    if let Some(f) = node(2) {
+                        let (lf, ll) = (metrics(&f).last_log_index, metrics(&n1b).last_log_index);
+                        if lf + 3 >= ll {
+                            break;
+                        }
+                    }
+                }
+            }
+            mm
+        });
+        m = writer.await.map_err(|e| Violation::new("harness.writer", e.to_string()))?;
+
+        // within 60 simulated s, and WITHOUT restarting it, the follower serves what the leader serves
+        let mut ok = false;
+        let mut last = String::new();
+        let mut obs_l = observe(&n1, "L").await.map_err(|e| Violation::new(&format!("{}.observe_failed", id), e.to_string()))?;
+        for _ in 0..60 {
+            advance(1_000).await;
+            let n2 = match node(2) {
+                Some(n) => n,
+                None => continue,
+            };
+            obs_l = observe(&n1, "L").await.map_err(|e| Violation::new(&format!("{}.observe_failed", id), e.to_string()))?;
+            let obs_f = observe(&n2, "F").await.map_err(|e| Violation::new(&format!("{}.observe_failed", id), e.to_string()))?;
+            if let Ok(Some(s)) = n2.app.raft_store.get_current_snapshot().await {
+                if s.index > 0 {
+                    installed = true;
+                }
+            }
+            if obs_l == obs_f {
+                ok = true;
+                break;
+            }
+            last = obs_diff(&obs_l, &obs_f);
+        }
+        // the background client's key is exempt from the model (whatever the leader serves is the model)
+        {
+            let bk = key_str(2, 1, 4);
+            match obs_l.cfg.get(&bk).cloned().flatten() {
+                Some(v) => {
+                    let mut h: Vec<String> = obs_l.hist.get(&bk).cloned().unwrap_or_default().into_iter().map(|x| x.1).collect();
+                    h.reverse();
+                    m.cfg.insert(bk, CfgModelEntry { content: v.0, typ: v.2, desc: v.3, history: h });
+                }
+                None => {
+                    m.cfg.remove(&bk);
+                }
+            }
+        }
+        check_cfg_model(id, &obs_l, &m, "leader")?;
+        if installed {
+            sim::count("probe.snapshot_installed_on_follower", 1);
+        }
+        let n2 = node(2).ok_or_else(|| Violation::new("harness.node", "follower missing"))?;
+        let m2 = metrics(&n2);
+        let m1 = metrics(&n1);
+        if !ok {
+            let state = format!("leader: last_log={} applied={} snapshot(before connect)={}; follower: {:?} last_log={} applied={} members={:?}", m1.last_log_index, m1.last_applied, snap_before, m2.state, m2.last_log_index, m2.last_applied, m2.membership_config.members);
+            if installed && m2.last_applied >= m1.last_applied.saturating_sub(2) {
+                // root-cause signature of a recorded defect: raft state caught up through a snapshot, data not loaded
+                sim::count("probe.installed_snapshot_not_loaded", 1);
+                findings.push(Violation::new(&format!("{}.installed_snapshot_not_loaded", id), format!("60 simulated s after it was connected the follower has installed the leader's snapshot and reports the leader's log applied, but does not serve the data contained in the snapshot: {} [[{}]]", last, state)));
+            } else {
+                vfail!(&format!("{}.follower_not_caught_up", id), "60 simulated s after it was connected the follower does not serve what the leader serves: {} [[{}]]", last, state);
+            }
+        }
+        // membership as recorded by the leader
+        let want: std::collections::BTreeSet<u64> = m1.membership_config.members.iter().cloned().collect();
+        let have: std::collections::BTreeSet<u64> = n2.app.raft_store.get_membership_config().await.map(|c| c.members.into_iter().collect()).unwrap_or_default();
+        vensure!(want == have, &format!("{}.membership", id), "follower's stored membership {:?} differs from the leader's {:?}", have, want);
+        // after a restart of the follower the equality holds (again)
+        if cfg.restart_follower_at_end {
+            stop_node(2).await;
+            let n2 = start_node(&root, 2, false, Some(1), &cfg.base.node).await.map_err(|e| Violation::new(&format!("{}.restart_failed", id), e.to_string()))?;
+            let mut ok2 = false;
+            let mut last2 = String::new();
+            for _ in 0..60 {
+                advance(1_000).await;
+                let obs_l = observe(&n1, "L").await.map_err(|e| Violation::new(&format!("{}.observe_failed", id), e.to_string()))?;
+                let obs_f = observe(&n2, "F").await.map_err(|e| Violation::new(&format!("{}.observe_failed", id), e.to_string()))?;
+                if obs_l == obs_f {
+                    ok2 = true;
+                    digest = obs_digest(&obs_f);
+                    break;
+                }
+                last2 = obs_diff(&obs_l, &obs_f);
+            }
+            if !ok2 {
+                let mut dbg = String::new();
+                for nn in ["n1", "n2"] {
+                    let files = tokio::fs::list_files(&format!("{}/{}/", root, nn));
+                    dbg.push_str(&format!(" {}: {:?}", nn, files.iter().map(|(n, l)| (n.rsplit('/').next().unwrap_or("").to_string(), *l)).collect::<Vec<_>>()));
+                }
+                for nn in ["n1", "n2"] {
+                    for (name, _) in tokio::fs::list_files(&format!("{}/{}/", root, nn)) {
+                        if name.contains("snapshot_") {
+                            if let Ok(mut rd) = rnacos::raft::filestore::raftsnapshot::SnapshotReader::init(&format!("{}/{}.e{}/{}", root, nn, tokio::fs::current_epoch(nn), name.rsplit('/').next().unwrap_or(""))).await {
+                                let hdr = format!("{:?}", rd.get_header().last_index);
+                                let mut keys = vec![];
+                                while let Ok(Some(r)) = rd.read_record().await {
+                                    if r.tree.as_str() == "T_USER" || r.tree.as_str() == "T_SEQUENCE" {
+                                        keys.push(format!("{}/{}", r.tree, String::from_utf8_lossy(&r.key)));
+                                    }
+                                }
+                                dbg.push_str(&format!(" | {}:{} last_index={} {:?}", nn, name.rsplit('/').next().unwrap_or(""), hdr, keys));
+                            }
+                        }
+                    }
+                }
+                let m2 = metrics(&n2);
+                if installed {
+                    // consequence of the recorded defect: the follower never loaded the installed snapshot's data,
+                    // compacted its own incomplete state later, and restarts from that
+                    sim::count("probe.installed_snapshot_not_loaded_permanent", 1);
+                    if findings.is_empty() {
+                        findings.push(Violation::new(&format!("{}.installed_snapshot_not_loaded", id), format!("the follower installed the leader's snapshot but did not load its data; after its own later compaction and a restart the data is still missing: {} [[follower last_log={} applied={};{}]]", last2, m2.last_log_index, m2.last_applied, dbg)));
+                    }
+                    return Ok(());
+                }
+                vfail!(&format!("{}.differs_after_follower_restart", id), "60 simulated s after its restart the follower does not serve what the leader serves: {} [[follower last_log={} applied={};{}]]", last2, m2.last_log_index, m2.last_applied, dbg);
+            }
+            sim::count("probe.follower_restarted", 1);
+        }
+        // later writes keep replicating
+        let st = WStep::CfgSet { node: 1, t: 1, g: 0, d: 4, size: 10, same: false, typ: 0, desc: 0 };
+        let mut mm = WModel::default();
+        mm.uniq = 2_000_000;
+        let _ = do_step(&n1, &st, &mut mm, 10_000).await;
+        let want_c = mm.cfg.values().next().map(|e| e.content.clone()).unwrap_or_default();
+        let mut seen = false;
+        for _ in 0..30 {
+            advance(1_000).await;
+            if let Some(n2) = node(2) {
+                if let Ok(Some(v)) = cfg_get(&n2, cfg_key(1, 0, 4)).await {
+                    if v.0 == want_c {
+                        seen = true;
+                        break;
+                    }
+                }
+            }
+        }
+        if findings.is_empty() || cfg.restart_follower_at_end {
+            vensure!(seen, &format!("{}.later_write_not_replicated", id), "a write made after the follower caught up is not served by it 30 simulated s later");
+        }
+        Ok(())
+    }
+    .await;
+    if sim::counter("probe.needs_snapshot_loop_detected") > 0 {
+        findings.push(Violation::new(&format!("{}.needs_snapshot_livelock", id), format!("while a follower needed a snapshot and the leader's snapshot policy was not met (snapshot older than half the threshold, fewer than threshold new entries) the leader and its replication stream exchanged needs-snapshot requests in a tight loop without any pause ({} bursts of 100 calls at one simulated instant); only further client writes end it - with no writes the follower is never caught up", sim::counter("probe.needs_snapshot_loop_detected"))));
+    }
+    let info = RunInfo { digest, nontrivial: installed, info: json!({"installed": installed}), findings };
+    for n in live_nodes() {
+        kill_node(n.id).await;
+    }
+    ExecResult { violation: r.err(), info }
+}
+
+impl Check for C08 {
+    fn id(&self) -> &'static str {
+        "C08"
+    }
+    fn generate(&self, seed: u64, _tier: Tier) -> Value {
+        let mut rng = Rng::derive(seed, "C08.gen", 0);
+        let mut cfg = C08Cfg::default();
+        cfg.base.nodes = 2;
+        cfg.base.node.snapshot_log_size = rng.range(5, 30);
+        // no disk latency here: while the leader answers a follower that needs a snapshot in a tight loop
+        // no simulated time passes, so a compaction that waits for a disk timer would never finish
+        cfg.base.disk_p_delay = 0.0;
+        cfg.scenario = rng.below(2) as u8;
+        cfg.kill = rng.chance(0.5);
+        cfg.restart_follower_at_end = rng.chance(0.6);
+        let n = rng.range(cfg.base.node.snapshot_log_size + 5, 90);
+        cfg.before = rng.range(0, 10) as usize;
+        let mut steps = vec![];
+        let w = [50u32, 8, 8, 4, 3, 0, 0, 0, 0];
+        for _ in 0..n {
+            steps.push(gen_wstep(&mut rng, 1, &w));
+        }
+        json!({"check": "C08", "seed": seed, "cfg": cfg, "steps": steps})
+    }
+    fn execute(&self, script: Value) -> LocalFut<ExecResult> {
+        Box::pin(exec_c08(script))
+    }
+}
